@@ -188,6 +188,24 @@ def draw_plan(rng: random.Random, prop: str, tier: str = "quick", methods=None, 
                {"op": "reconf", "mgr": "A", "to": "variant"}]
         if rng.random() < 0.5:
             ops.append({"op": "redesign", "mgr": "A"})
+    elif prop == "C13" and rng.random() < 0.07:
+        # constrained pair (the mutable default keep_contour=[True, False] named in the property's anchors): a polygon-constrained
+        # design without no-go zones runs first, then one whose no-go wall lies on the centre line of the lot (grid points of
+        # every odd row count fall exactly on its contour), compared with a pristine interpreter
+        for _ in range(50):
+            cfg = gen.draw_cfg(rng, methods=["BIRECTANGLECONSTRAINED"], months=12, target="bracket")
+            ng = cfg["geometry"]["no_go_boundaries"]
+            xs = [q[0] for q in cfg["geometry"]["property_boundary"]]
+            ys = [q[1] for q in cfg["geometry"]["property_boundary"]]
+            mx, my = (min(xs) + max(xs)) / 2.0, (min(ys) + max(ys)) / 2.0
+            if ng and any(abs(q[0] - mx) < 0.02 or abs(q[1] - my) < 0.02 for q in ng[0]):
+                break
+        variant = copy.deepcopy(cfg)
+        variant["geometry"]["no_go_boundaries"] = []
+        variant["variant_of"] = ["geometry.no_go_boundaries"]
+        variant.pop("target", None)
+        ops = [{"op": "other", "cfg_key": "variant"}, {"op": "build", "mgr": "A", "order": order, "decoys": [], "cfg_key": "base"},
+               {"op": "find", "mgr": "A"}, {"op": "pristine", "mgr": "A"}]
     elif prop == "C13" and rng.random() < 0.2:
         # leak probe: a near-identical design (exactly one section group differs) runs first in this process - on this
         # manager or on another one - and the base design is then compared with a pristine interpreter's
